@@ -153,8 +153,12 @@ func (b *c04Bed) build(class c04Class, form int, st int16, tok string) (*frame.F
 			child = fmt.Sprintf(nonIdemInsert, tok)
 			nf.Name = "now-in-values"
 		}
-		return frame.NewFrame(v, st, &message.Batch{Type: primitive.BatchTypeLogged, Consistency: primitive.ConsistencyLevelQuorum, Children: []*message.BatchChild{
-			{Query: fmt.Sprintf(idemInsert, tok)}, {Query: child}}}), nf.Name, nil
+		// the non-idempotent child is first, in the middle or last (the token is in the idempotent children too)
+		idemChild := &message.BatchChild{Query: fmt.Sprintf(idemInsert, tok)}
+		bad := &message.BatchChild{Query: child}
+		children := [][]*message.BatchChild{{idemChild, bad}, {bad, idemChild}, {idemChild, bad, idemChild}}[form%3]
+		return frame.NewFrame(v, st, &message.Batch{Type: primitive.BatchTypeLogged, Consistency: primitive.ConsistencyLevelQuorum, Children: children}),
+			nf.Name + []string{"/last", "/first", "/middle"}[form%3], nil
 	case c04BatchPrep, c04BatchUnknown:
 		q := nonIdemPrepared
 		name := "now-in-values"
@@ -165,8 +169,11 @@ func (b *c04Bed) build(class c04Class, form int, st int16, tok string) (*frame.F
 		} else if err := b.prepareVia(b.cl, q); err != nil {
 			return nil, "", err
 		}
-		return frame.NewFrame(v, st, &message.Batch{Type: primitive.BatchTypeLogged, Consistency: primitive.ConsistencyLevelQuorum, Children: []*message.BatchChild{
-			{Query: fmt.Sprintf(idemInsert, tok)}, {Id: fakecass.PreparedID("", q), Values: []*primitive.Value{primitive.NewValue([]byte("v"))}}}}), name, nil
+		idemChild := &message.BatchChild{Query: fmt.Sprintf(idemInsert, tok)}
+		bad := &message.BatchChild{Id: fakecass.PreparedID("", q), Values: []*primitive.Value{primitive.NewValue([]byte("v"))}}
+		children := [][]*message.BatchChild{{idemChild, bad}, {bad, idemChild}, {idemChild, bad, idemChild}}[form%3]
+		return frame.NewFrame(v, st, &message.Batch{Type: primitive.BatchTypeLogged, Consistency: primitive.ConsistencyLevelQuorum, Children: children}),
+			name + []string{"/last", "/first", "/middle"}[form%3], nil
 	}
 	return nil, "", fmt.Errorf("unknown class %s", class)
 }
